@@ -1,5 +1,5 @@
 (* PRNG: structural forward security, reseed bookkeeping, status results. *)
-From AsconV Require Import Model.Prngm Proofs.SpongeP.
+From AsconV Require Import Model.Prngm Proofs.SpongeP Proofs.SqueezeP Proofs.AeadP Proofs.XofP.
 From Coq Require Import ZArith.
 Local Open Scope nat_scope.
 
@@ -78,59 +78,263 @@ Proof.
   destruct (xof_squeeze perm vxof _ n) as [x2 out]. cbn. auto.
 Qed.
 
-(* histories: ghost count p of bytes produced since the last (re)seed *)
-Inductive pop := PFetch (n : nat) | PFeed (d : bytes) | PReseed.
+(* ---- histories -------------------------------------------------------------------------
+   Every operation of random.h on one generator object, including a second init of the same
+   object, the two seed-storage operations (with their full storage descriptor; None = NULL
+   pointer) and the one-shot ascon_random (which leaves the object alone but consumes an
+   answer of the system source). *)
+Inductive pop :=
+| PInit
+| PFetch (n : nat)
+| PFeed (d : bytes)
+| PReseed
+| PSave (st : option nvstorage)
+| PLoad (st : option nvstorage)
+| POneshot (n : nat).
+
+(* save / load go ahead only with a storage block of at least 32 bytes *)
+Definition usable (st : option nvstorage) : bool :=
+  match st with None => false | Some g => negb (st_size (nv_cb g) <? 32) end.
 
 Definition papply (st : prng_state * list sys_answer) (o : pop) : prng_state * list sys_answer :=
   let '(s, sys) := st in
   match o with
+  | PInit => let '(s', _, sys') := prng_init perm sys in (s', sys')
   | PFetch n => let '(s', _, sys') := prng_fetch perm s n sys in (s', sys')
   | PFeed d => (prng_feed perm s d, sys)
   | PReseed => let '(s', _, sys') := prng_reseed perm s sys in (s', sys')
+  | PSave g => let '(s', _, _, sys') := prng_save_seed_g perm s g sys in (s', sys')
+  | PLoad g => let '(s', _, _, sys') := prng_load_seed_g perm s g sys in (s', sys')
+  | POneshot n => (s, snd (random_oneshot perm n sys))
   end.
-Definition ghost (c p : nat) (o : pop) : nat :=
+
+(* ghost count p: the bytes the generator has produced since it last drew from the system
+   source, were it to draw whenever 16384 or more have been produced.  Defined from the
+   operations alone (it never looks at the counter field): a fetch of n bytes, and the 32-byte
+   fetch inside a save that goes ahead, start from 0 if a reseed was due; a load that goes
+   ahead reseeds and then produces the 32 bytes of the new saved seed. *)
+Definition ghost (p : nat) (o : pop) : nat :=
   match o with
-  | PFetch n => (if reseed_limit <=? c then 0 else p) + n
+  | PInit => 0
+  | PFetch n => (if reseed_limit <=? p then 0 else p) + n
   | PFeed _ => p
   | PReseed => 0
+  | PSave g => if usable g then (if reseed_limit <=? p then 0 else p) + 32 else p
+  | PLoad g => if usable g then 32 else p
+  | POneshot _ => p
   end.
+
 Definition Inv (c p : nat) : Prop :=
   (c < reseed_limit -> c = p) /\ (reseed_limit <= c -> reseed_limit <= p) /\ c < 2 * reseed_limit.
 
-Lemma papply_inv s sys o p : Inv (r_counter s) p ->
-  Inv (r_counter (fst (papply (s, sys) o))) (ghost (r_counter s) p o).
+Lemma reseed_counter s sys : r_counter (fst (fst (prng_reseed perm s sys))) = 0.
+Proof. unfold prng_reseed. destruct (next_sys sys) as [[seed ok] sys2]. reflexivity. Qed.
+
+Lemma fetch_inv s n sys p : Inv (r_counter s) p ->
+  Inv (r_counter (fst (fst (prng_fetch perm s n sys)))) ((if reseed_limit <=? p then 0 else p) + n).
 Proof.
-  intros (I1 & I2 & I3). pose proof limit_pos as LP. remember reseed_limit as L eqn:HL.
-  destruct o as [n|d|]; cbn [papply ghost].
-  - unfold prng_fetch. rewrite <- HL.
-    destruct (Nat.leb_spec L (r_counter s)) as [C|C].
-    + destruct (prng_reseed perm s sys) as [[s' b] sys'] eqn:E.
-      assert (Z0 : r_counter s' = 0).
-      { unfold prng_reseed in E. destruct (next_sys sys) as [[seed ok] sys2]. inversion E; subst. reflexivity. }
-      destruct (xof_squeeze perm vxof (r_xof s') n) as [x2 out]. cbn [fst r_counter]. rewrite Z0.
-      destruct (Nat.ltb_spec n L); unfold Inv; rewrite <- HL; repeat split; lia.
-    + destruct (xof_squeeze perm vxof (r_xof s) n) as [x2 out]. cbn [fst r_counter].
-      destruct (Nat.ltb_spec n L); unfold Inv; rewrite <- HL; repeat split; lia.
-  - cbn. unfold Inv. rewrite <- HL. auto.
-  - unfold prng_reseed. destruct (next_sys sys) as [[seed ok] sys2]. cbn. unfold Inv. rewrite <- HL. repeat split; lia.
+  intros (I1 & I2 & I3). pose proof limit_pos as LP. unfold prng_fetch. remember reseed_limit as L eqn:HL.
+  destruct (Nat.leb_spec L (r_counter s)) as [C|C].
+  - pose proof (reseed_counter s sys) as Z0.
+    destruct (prng_reseed perm s sys) as [[s' b] sys']. cbn [fst] in Z0.
+    destruct (xof_squeeze perm vxof (r_xof s') n) as [x2 out]. cbn [fst r_counter]. rewrite Z0.
+    destruct (Nat.leb_spec L p) as [P|P]; [|lia].
+    destruct (Nat.ltb_spec n L); unfold Inv; rewrite <- HL; repeat split; lia.
+  - destruct (xof_squeeze perm vxof (r_xof s) n) as [x2 out]. cbn [fst r_counter].
+    destruct (Nat.leb_spec L p) as [P|P]; [lia|].
+    destruct (Nat.ltb_spec n L); unfold Inv; rewrite <- HL; repeat split; lia.
 Qed.
+
+Lemma inv_00 : Inv 0 0.
+Proof. pose proof limit_pos. unfold Inv. repeat split; lia. Qed.
+
+Lemma limit_gt_32 : 32 < reseed_limit. Proof. unfold reseed_limit. lia. Qed.
+
+Lemma usable_some g : usable (Some g) = negb (st_size (nv_cb g) <? 32). Proof. reflexivity. Qed.
+
+(* state and remaining script after save / load, in terms of the basic operations *)
+Lemma save_g_state s g sys : usable (Some g) = true ->
+  fst (fst (fst (prng_save_seed_g perm s (Some g) sys))) = fst (fst (prng_fetch perm s 32 sys)) /\
+  snd (prng_save_seed_g perm s (Some g) sys) = snd (prng_fetch perm s 32 sys).
+Proof.
+  rewrite usable_some. unfold prng_save_seed_g. destruct (st_size (nv_cb g) <? 32); [discriminate|]. intros _.
+  destruct (prng_fetch perm s 32 sys) as [[s1 seed] sys1]. split; reflexivity.
+Qed.
+Lemma save_g_unusable s g sys : usable g = false ->
+  prng_save_seed_g perm s g sys = (s, (-1)%Z, [], sys).
+Proof.
+  destruct g as [g|]; [|reflexivity]. rewrite usable_some. unfold prng_save_seed_g.
+  destruct (st_size (nv_cb g) <? 32); [reflexivity|discriminate].
+Qed.
+Definition load_mid (s : prng_state) (g : nvstorage) (sys : list sys_answer) : prng_state * list sys_answer :=
+  let s1 := if (fst (st_read (nv_cb g)) =? 32)%Z then prng_feed perm s (firstn 32 (snd (st_read (nv_cb g)))) else s in
+  (fst (fst (prng_reseed perm s1 sys)), snd (prng_reseed perm s1 sys)).
+Lemma load_g_state s g sys : usable (Some g) = true ->
+  fst (fst (fst (prng_load_seed_g perm s (Some g) sys))) =
+    fst (fst (prng_fetch perm (fst (load_mid s g sys)) 32 (snd (load_mid s g sys)))) /\
+  snd (prng_load_seed_g perm s (Some g) sys) = snd (prng_fetch perm (fst (load_mid s g sys)) 32 (snd (load_mid s g sys))).
+Proof.
+  rewrite usable_some. unfold prng_load_seed_g, load_mid. destruct (st_size (nv_cb g) <? 32); [discriminate|]. intros _.
+  destruct (st_read (nv_cb g)) as [r data]. cbn [fst snd].
+  destruct (prng_reseed perm _ sys) as [[s2 b] sys2]. cbn [fst snd].
+  destruct (prng_fetch perm s2 32 sys2) as [[s3 seed] sys3]. split; reflexivity.
+Qed.
+Lemma load_g_unusable s g sys : usable g = false ->
+  prng_load_seed_g perm s g sys = (s, (-1)%Z, [], sys).
+Proof.
+  destruct g as [g|]; [|reflexivity]. rewrite usable_some. unfold prng_load_seed_g.
+  destruct (st_size (nv_cb g) <? 32); [reflexivity|discriminate].
+Qed.
+Lemma load_mid_counter s g sys : r_counter (fst (load_mid s g sys)) = 0.
+Proof. unfold load_mid. cbn [fst]. apply reseed_counter. Qed.
+
+Lemma papply_inv s sys o p : Inv (r_counter s) p ->
+  Inv (r_counter (fst (papply (s, sys) o))) (ghost p o).
+Proof.
+  intros I. destruct o as [|n|d| |g|g|n]; cbn [papply ghost].
+  - unfold prng_init. destruct (next_sys sys) as [[seed ok] sys']. cbn. apply inv_00.
+  - pose proof (fetch_inv s n sys p I) as F. destruct (prng_fetch perm s n sys) as [[s' o] sys']. exact F.
+  - exact I.
+  - pose proof (reseed_counter s sys) as Z0. destruct (prng_reseed perm s sys) as [[s' b] sys'].
+    cbn [fst] in *. rewrite Z0. apply inv_00.
+  - destruct (usable g) eqn:U.
+    + destruct g as [g|]; [|discriminate]. pose proof (save_g_state s g sys U) as [E _].
+      destruct (prng_save_seed_g perm s (Some g) sys) as [[[s' r] cs] sys']. cbn [fst] in *. rewrite E.
+      apply fetch_inv, I.
+    + rewrite (save_g_unusable s g sys U). exact I.
+  - destruct (usable g) eqn:U.
+    + destruct g as [g|]; [|discriminate]. pose proof (load_g_state s g sys U) as [E _].
+      destruct (prng_load_seed_g perm s (Some g) sys) as [[[s' r] cs] sys']. cbn [fst] in *. rewrite E.
+      pose proof (fetch_inv (fst (load_mid s g sys)) 32 (snd (load_mid s g sys)) 0) as F.
+      rewrite load_mid_counter in F. specialize (F inv_00).
+      pose proof limit_pos as LP. destruct (Nat.leb_spec reseed_limit 0) as [H|H]; [lia|]. exact F.
+    + rewrite (load_g_unusable s g sys U). exact I.
+  - exact I.
+Qed.
+
+Definition hstep (x : (prng_state * list sys_answer) * nat) (o : pop) : (prng_state * list sys_answer) * nat :=
+  (papply (fst x) o, ghost (snd x) o).
 
 (* C15: in every history from init, the counter tracks the bytes produced since the last
    (re)seed up to saturation - so a fetch draws fresh system entropy first exactly when at
    least 16384 bytes have been produced since the last reseed - and stays below 32768 *)
 Theorem history_inv ops : forall s sys p, Inv (r_counter s) p ->
-  let c_p := fold_left (fun '(st, p) o => (papply st o, ghost (r_counter (fst st)) p o)) ops ((s, sys), p) in
+  let c_p := fold_left hstep ops ((s, sys), p) in
   Inv (r_counter (fst (fst c_p))) (snd c_p).
 Proof.
   induction ops as [|o ops IH]; intros s sys p I; [exact I|].
   cbn [fold_left]. destruct (papply (s, sys) o) as [s' sys'] eqn:E.
-  apply IH. pose proof (papply_inv s sys o p I) as P. rewrite E in P. exact P.
+  assert (H : hstep (s, sys, p) o = (s', sys', ghost p o)) by (unfold hstep; cbn [fst snd]; rewrite E; reflexivity).
+  rewrite H. apply IH. pose proof (papply_inv s sys o p I) as P. rewrite E in P. exact P.
 Qed.
 
 Lemma init_inv sys : Inv (r_counter (fst (fst (prng_init perm sys)))) 0.
 Proof.
-  unfold prng_init. destruct (next_sys sys) as [[seed ok] sys']. cbn. pose proof limit_pos. unfold Inv. repeat split; lia.
+  unfold prng_init. destruct (next_sys sys) as [[seed ok] sys']. cbn. apply inv_00.
 Qed.
+
+(* the system source is consulted before output exactly when the budget is used up: for a
+   state whose counter is related to the ghost count p (every state of every history, by
+   history_inv), a fetch - also the one inside save_seed - consumes the next system answer
+   iff p >= 16384; and load_seed always consumes exactly one *)
+Theorem fetch_draws_iff_due s p n a sys : Inv (r_counter s) p ->
+  snd (prng_fetch perm s n (a :: sys)) = if reseed_limit <=? p then sys else a :: sys.
+Proof.
+  intros (I1 & I2 & I3). destruct (Nat.leb_spec reseed_limit p) as [P|P].
+  - assert (C : reseed_limit <= r_counter s) by (destruct (Nat.le_gt_cases reseed_limit (r_counter s)); [assumption|specialize (I1 H); lia]).
+    exact (proj1 (fetch_reseeds s n a sys C)).
+  - assert (C : r_counter s < reseed_limit) by (destruct (Nat.le_gt_cases reseed_limit (r_counter s)); [specialize (I2 H); lia|assumption]).
+    exact (proj1 (fetch_no_reseed s n (a :: sys) C)).
+Qed.
+Theorem save_draws_iff_due s p g a sys : Inv (r_counter s) p -> usable (Some g) = true ->
+  snd (prng_save_seed_g perm s (Some g) (a :: sys)) = if reseed_limit <=? p then sys else a :: sys.
+Proof.
+  intros I U. rewrite (proj2 (save_g_state s g (a :: sys) U)). now apply fetch_draws_iff_due.
+Qed.
+Theorem load_draws_one s g a sys : usable (Some g) = true ->
+  snd (prng_load_seed_g perm s (Some g) (a :: sys)) = sys.
+Proof.
+  intros U. rewrite (proj2 (load_g_state s g (a :: sys) U)).
+  assert (E : snd (load_mid s g (a :: sys)) = sys).
+  { unfold load_mid. cbn [snd]. unfold prng_reseed. destruct a as [seed ok]. reflexivity. }
+  pose proof (load_mid_counter s g (a :: sys)) as C0. pose proof limit_pos as LP.
+  rewrite E. apply fetch_no_reseed. rewrite C0. exact LP.
+Qed.
+Theorem unusable_draws_none s g sys : usable g = false ->
+  snd (prng_save_seed_g perm s g sys) = sys /\ snd (prng_load_seed_g perm s g sys) = sys.
+Proof. intros U. rewrite save_g_unusable, load_g_unusable by exact U. split; reflexivity. Qed.
+
+(* ---- forward security over histories ---------------------------------------------------
+   Every operation either leaves the object untouched (save / load refused: NULL or a block
+   smaller than 32 bytes; one-shot) or ends with the re-key.  So in every history from init
+   the object is in a re-keyed state, also right after save_seed has handed 32 output bytes
+   to the storage callback and after load_seed has written the replacement seed. *)
+Definition rekeyed (s : prng_state) : Prop := exists x, r_xof s = rekey perm x.
+
+Theorem save_rekeyed s g sys : usable g = true -> rekeyed (fst (fst (fst (prng_save_seed_g perm s g sys)))).
+Proof.
+  intros U. destruct g as [g|]; [|discriminate]. rewrite (proj1 (save_g_state s g sys U)). apply fetch_rekeyed.
+Qed.
+Theorem load_rekeyed s g sys : usable g = true -> rekeyed (fst (fst (fst (prng_load_seed_g perm s g sys)))).
+Proof.
+  intros U. destruct g as [g|]; [|discriminate]. rewrite (proj1 (load_g_state s g sys U)). apply fetch_rekeyed.
+Qed.
+
+Lemma papply_rekeyed s sys o : rekeyed s -> rekeyed (fst (papply (s, sys) o)).
+Proof.
+  intros R. destruct o as [|n|d| |g|g|n]; cbn [papply].
+  - pose proof (init_rekeyed sys) as H. destruct (prng_init perm sys) as [[s' b] sys']. exact H.
+  - pose proof (fetch_rekeyed s n sys) as H. destruct (prng_fetch perm s n sys) as [[s' b] sys']. exact H.
+  - apply feed_rekeyed.
+  - pose proof (reseed_rekeyed s sys) as H. destruct (prng_reseed perm s sys) as [[s' b] sys']. exact H.
+  - destruct (usable g) eqn:U.
+    + pose proof (save_rekeyed s g sys U) as H. destruct (prng_save_seed_g perm s g sys) as [[[s' r] cs] sys']. exact H.
+    + rewrite (save_g_unusable s g sys U). exact R.
+  - destruct (usable g) eqn:U.
+    + pose proof (load_rekeyed s g sys U) as H. destruct (prng_load_seed_g perm s g sys) as [[[s' r] cs] sys']. exact H.
+    + rewrite (load_g_unusable s g sys U). exact R.
+  - exact R.
+Qed.
+
+Theorem history_rekeyed ops : forall s sys, rekeyed s -> rekeyed (fst (fold_left papply ops (s, sys))).
+Proof.
+  induction ops as [|o ops IH]; intros s sys R; [exact R|].
+  cbn [fold_left]. pose proof (papply_rekeyed s sys o R) as P.
+  destruct (papply (s, sys) o) as [s' sys']. apply IH. exact P.
+Qed.
+
+Theorem init_history_rekeyed ops sys :
+  let '(s0, _, sys0) := prng_init perm sys in rekeyed (fst (fold_left papply ops (s0, sys0))).
+Proof.
+  pose proof (init_rekeyed sys) as R. destruct (prng_init perm sys) as [[s0 ok] sys0]. apply history_rekeyed. exact R.
+Qed.
+
+Theorem init_history_inv ops sys :
+  let '(s0, _, sys0) := prng_init perm sys in
+  let c_p := fold_left hstep ops ((s0, sys0), 0) in
+  Inv (r_counter (fst (fst c_p))) (snd c_p).
+Proof.
+  pose proof (init_inv sys) as I. destruct (prng_init perm sys) as [[s0 ok] sys0]. cbn [fst] in I.
+  exact (history_inv ops s0 sys0 0 I).
+Qed.
+
+Theorem init_history_due ops sys n g a rest :
+  let '(s0, _, sys0) := prng_init perm sys in
+  let c_p := fold_left hstep ops ((s0, sys0), 0) in
+  let s := fst (fst c_p) in
+  let p := snd c_p in
+  snd (prng_fetch perm s n (a :: rest)) = (if reseed_limit <=? p then rest else a :: rest) /\
+  (usable (Some g) = true ->
+   snd (prng_save_seed_g perm s (Some g) (a :: rest)) = (if reseed_limit <=? p then rest else a :: rest) /\
+   snd (prng_load_seed_g perm s (Some g) (a :: rest)) = rest).
+Proof.
+  pose proof (init_history_inv ops sys) as I. destruct (prng_init perm sys) as [[s0 ok] sys0]. cbv zeta in *.
+  split; [now apply fetch_draws_iff_due|]. intros U. split; [now apply save_draws_iff_due|now apply load_draws_one].
+Qed.
+
+(* the two folds visit the same states *)
+Lemma hstep_fst ops : forall x, fst (fold_left hstep ops x) = fold_left papply ops (fst x).
+Proof. induction ops as [|o ops IH]; intros x; [reflexivity|]. cbn [fold_left]. rewrite IH. reflexivity. Qed.
 
 (* ---- status results ----------------------------------------------------------------- *)
 
@@ -165,4 +369,244 @@ Proof.
   destruct (prng_reseed perm _ sys) as [[s2 b] sys2]. destruct (prng_fetch perm s2 32 sys2) as [[s3 seed] sys3]. reflexivity.
 Qed.
 
+
+(* ---- save / load with the full storage descriptor: status and callback arguments ---------- *)
+
+Definition calls4 {A B C D} (x : A * B * C * D) : C := snd (fst x).
+
+(* the status depends on the region size and on the count the callback returns, on nothing else
+   in the descriptor (page size, erase size, address, partial writes) *)
+Theorem status_save_g s g sys :
+  result4 (prng_save_seed_g perm s g sys) =
+  match g with
+  | None => (-1)%Z
+  | Some g => if st_size (nv_cb g) <? 32 then (-1)%Z else if (st_write (nv_cb g) =? 32)%Z then 0%Z else (-1)%Z
+  end.
+Proof.
+  unfold prng_save_seed_g, result4. destruct g as [g|]; [|reflexivity].
+  destruct (st_size (nv_cb g) <? 32); [reflexivity|]. destruct (prng_fetch perm s 32 sys) as [[s1 seed] sys1]. reflexivity.
+Qed.
+Theorem status_load_g s g sys :
+  result4 (prng_load_seed_g perm s g sys) =
+  match g with
+  | None => (-1)%Z
+  | Some g => if st_size (nv_cb g) <? 32 then (-1)%Z else if (fst (st_read (nv_cb g)) =? 32)%Z then 0%Z else (-1)%Z
+  end.
+Proof.
+  unfold prng_load_seed_g, result4. destruct g as [g|]; [|reflexivity].
+  destruct (st_size (nv_cb g) <? 32); [reflexivity|]. destruct (st_read (nv_cb g)) as [r data]. cbn [fst].
+  destruct (prng_reseed perm _ sys) as [[s2 b] sys2]. destruct (prng_fetch perm s2 32 sys2) as [[s3 seed] sys3]. reflexivity.
+Qed.
+
+(* the calls made, in order, with their arguments: save = one write of the 32 bytes just
+   fetched, at offset 0, erase requested iff erase_size <> 0; load = one read of 32 bytes at
+   offset 0, then one such write of the 32 bytes fetched after feed (if 32 were read) and
+   reseed - whatever the read returned; none when refused *)
+Theorem calls_save_g s g sys :
+  calls4 (prng_save_seed_g perm s g sys) =
+  match g with
+  | None => []
+  | Some g => if st_size (nv_cb g) <? 32 then []
+              else [CbWrite 0 32 (snd (fst (prng_fetch perm s 32 sys))) (negb (nv_erase g =? 0))]
+  end.
+Proof.
+  unfold prng_save_seed_g, calls4. destruct g as [g|]; [|reflexivity].
+  destruct (st_size (nv_cb g) <? 32); [reflexivity|]. destruct (prng_fetch perm s 32 sys) as [[s1 seed] sys1]. reflexivity.
+Qed.
+Theorem calls_load_g s g sys :
+  calls4 (prng_load_seed_g perm s g sys) =
+  match g with
+  | None => []
+  | Some g => if st_size (nv_cb g) <? 32 then []
+              else [CbRead 0 32;
+                    CbWrite 0 32 (snd (fst (prng_fetch perm (fst (load_mid s g sys)) 32 (snd (load_mid s g sys))))) (negb (nv_erase g =? 0))]
+  end.
+Proof.
+  unfold prng_load_seed_g, calls4, load_mid. destruct g as [g|]; [|reflexivity].
+  destruct (st_size (nv_cb g) <? 32); [reflexivity|]. destruct (st_read (nv_cb g)) as [r data]. cbn [fst snd].
+  destruct (prng_reseed perm _ sys) as [[s2 b] sys2]. cbn [fst snd].
+  destruct (prng_fetch perm s2 32 sys2) as [[s3 seed] sys3]. reflexivity.
+Qed.
+
+(* forgetting the geometry and the arguments gives the operations Model/Leak.v (C11) uses *)
+Definition forget (g : option nvstorage) : option storage := option_map nv_cb g.
+Fixpoint written (cs : list cb_call) : option bytes :=
+  match cs with
+  | [] => None
+  | CbWrite _ _ d _ :: _ => Some d
+  | CbRead _ _ :: r => written r
+  end.
+Theorem save_g_refines s g sys :
+  prng_save_seed perm s (forget g) sys =
+  let '(s1, r, cs, sys1) := prng_save_seed_g perm s g sys in (s1, r, written cs, sys1).
+Proof.
+  unfold prng_save_seed, prng_save_seed_g, forget. destruct g as [g|]; [|reflexivity]. cbn [option_map].
+  destruct (st_size (nv_cb g) <? 32); [reflexivity|]. destruct (prng_fetch perm s 32 sys) as [[s1 seed] sys1]. reflexivity.
+Qed.
+Theorem load_g_refines s g sys :
+  prng_load_seed perm s (forget g) sys =
+  let '(s1, r, cs, sys1) := prng_load_seed_g perm s g sys in (s1, r, written cs, sys1).
+Proof.
+  unfold prng_load_seed, prng_load_seed_g, forget. destruct g as [g|]; [|reflexivity]. cbn [option_map].
+  destruct (st_size (nv_cb g) <? 32); [reflexivity|]. destruct (st_read (nv_cb g)) as [r data].
+  destruct (prng_reseed perm _ sys) as [[s2 b] sys2]. destruct (prng_fetch perm s2 32 sys2) as [[s3 seed] sys3]. reflexivity.
+Qed.
+
 End WithPerm.
+
+(* ---- the bytes handed to the write callback are exactly 32 -------------------------------
+   needs the state to be well formed (40 state bytes, count below the rate), which holds in
+   every history from init when the permutation preserves the length 40 *)
+Section WithPermLen.
+Variable perm : nat -> bytes -> bytes.
+Hypothesis perm_len : forall r s, length s = 40 -> length (perm r s) = 40.
+
+Local Notation vx_ok := (or_introl eq_refl : xvariant_ok vxof).
+
+Lemma p_absorb_wf s d : xwf vxof s ->
+  xwf vxof (xof_absorb perm vxof s d) /\ x_mode (xof_absorb perm vxof s d) = false.
+Proof.
+  intros Hw. destruct (x_mode s) eqn:M.
+  - assert (E : xof_absorb perm vxof s d =
+                xof_absorb perm vxof {| x_st := perm 0 (x_st s); x_count := 0; x_mode := false |} d).
+    { unfold xof_absorb. rewrite M. reflexivity. }
+    rewrite E. apply (xof_absorb_wf perm perm_len vxof vx_ok); [reflexivity|].
+    destruct Hw as [Hl _]. split; cbn [x_st x_count x_mode]; [now apply perm_len|cbn; lia].
+  - now apply (xof_absorb_wf perm perm_len vxof vx_ok).
+Qed.
+
+Lemma p_squeeze_wf s n : xwf vxof s ->
+  xwf vxof (fst (xof_squeeze perm vxof s n)) /\ length (snd (xof_squeeze perm vxof s n)) = n.
+Proof.
+  intros Hw. rewrite (xof_squeeze_serial perm perm_len vxof vx_ok s n Hw). cbv zeta.
+  pose proof (enter_wf perm perm_len vxof vx_ok s Hw) as [E1 E2].
+  pose proof (sq_serial_inv perm perm_len vxof vx_ok (xof_enter_squeeze perm vxof s) n E1 E2) as [I1 I2].
+  destruct (xof_enter_squeeze perm vxof s) as [st c]. cbn [fst snd] in *.
+  split; [split; cbn [x_st x_count x_mode]; assumption|].
+  unfold sq_serial. change (xv_lazy vxof) with true. cbv iota.
+  pose proof (lazy_serial_sim (perm 0) (xv_rate_out vxof) 40 (p0_len perm perm_len) (ro0 vxof vx_ok) (ro40 vxof vx_ok)
+                n st c E1 E2) as [_ S]. rewrite S. unfold alpha. cbn [fst snd].
+  assert (L : length (if c =? 0 then perm 0 st else st) = 40) by (destruct (c =? 0); auto).
+  pose proof (serial_inv bf_sq (perm 0) (xv_rate_out vxof) 40 (p0_len perm perm_len) (ro0 vxof vx_ok) (ro40 vxof vx_ok)
+                _ c (zeros n) E1 L) as [_ [_ [I3 _]]].
+  rewrite I3. unfold zeros. apply repeat_length.
+Qed.
+
+Lemma p_pad_wf s : xwf vxof s -> xwf vxof (xof_pad perm vxof s).
+Proof.
+  intros Hw. unfold xof_pad. destruct (x_mode s) eqn:M; [apply p_absorb_wf, Hw|].
+  destruct (x_count s =? 0); [exact Hw|]. destruct Hw as [Hl _].
+  split; cbn [x_st x_count x_mode]; [now apply perm_len|cbn; lia].
+Qed.
+
+Lemma zero_rate_keeps_len t : length (zero_rate t) = length t.
+Proof. unfold zero_rate. apply set_at_len. Qed.
+
+Lemma p_rekey_wf x : xwf vxof x -> xwf vxof (rekey perm x).
+Proof.
+  intros Hw. pose proof (p_pad_wf x Hw) as [Hl _]. destruct (xof_pad_aligned perm x) as [A B].
+  unfold rekey. split; cbn [x_st x_count x_mode].
+  - unfold rekey_st. repeat (apply perm_len; rewrite zero_rate_keeps_len). exact Hl.
+  - rewrite A, B. cbn. lia.
+Qed.
+
+Lemma p_init_custom_wf name custom outlen : xwf vxof (xof_init_custom perm vxof name custom outlen).
+Proof.
+  unfold xof_init_custom.
+  set (st0 := perm 0 _).
+  assert (W0 : xwf vxof (mk st0)).
+  { split; cbn [mk x_st x_count x_mode]; [|cbn; lia]. unfold st0. apply perm_len. rewrite !set_at_len. unfold zeros. apply repeat_length. }
+  unfold xof_absorb_custom. destruct custom as [|c cs]; [exact W0|].
+  pose proof (p_absorb_wf (mk st0) (c :: cs) W0) as [[Hl _] Hm].
+  split; cbn [x_st x_count x_mode].
+  - rewrite xor_at_len. apply perm_len. now rewrite xor_at_len.
+  - rewrite Hm. cbn. lia.
+Qed.
+
+Definition pwf (s : prng_state) : Prop := xwf vxof (r_xof s).
+
+Lemma init_wf sys : pwf (fst (fst (prng_init perm sys))).
+Proof.
+  unfold prng_init, pwf. destruct (next_sys sys) as [[seed ok] sys']. cbn [fst r_xof].
+  apply p_rekey_wf, p_absorb_wf, p_init_custom_wf.
+Qed.
+Lemma reseed_wf s sys : pwf s -> pwf (fst (fst (prng_reseed perm s sys))).
+Proof.
+  unfold prng_reseed, pwf. intros W. destruct (next_sys sys) as [[seed ok] sys']. cbn [fst r_xof].
+  apply p_rekey_wf, p_absorb_wf, W.
+Qed.
+Lemma fetch_wf s n sys : pwf s ->
+  pwf (fst (fst (prng_fetch perm s n sys))) /\ length (snd (fst (prng_fetch perm s n sys))) = n.
+Proof.
+  unfold pwf. intros W. unfold prng_fetch.
+  assert (W1 : xwf vxof (r_xof (fst (if reseed_limit <=? r_counter s
+                then let '(s', _, sys') := prng_reseed perm s sys in (s', sys') else (s, sys))))).
+  { destruct (reseed_limit <=? r_counter s); [|exact W].
+    pose proof (reseed_wf s sys W) as R. destruct (prng_reseed perm s sys) as [[s' b] sys']. exact R. }
+  destruct (if reseed_limit <=? r_counter s then _ else _) as [s1 sys1]. cbn [fst] in W1.
+  pose proof (p_squeeze_wf (r_xof s1) n W1) as [Q1 Q2].
+  destruct (xof_squeeze perm vxof (r_xof s1) n) as [x2 out]. cbn [fst snd r_xof] in *.
+  split; [apply p_rekey_wf, Q1|exact Q2].
+Qed.
+Lemma feed_wf s d : pwf s -> pwf (prng_feed perm s d).
+Proof. unfold pwf, prng_feed. intros W. cbn [r_xof]. apply p_rekey_wf, p_pad_wf, p_absorb_wf, W. Qed.
+
+Lemma load_mid_wf s g sys : pwf s -> pwf (fst (load_mid perm s g sys)).
+Proof.
+  intros W. unfold load_mid. cbn [fst]. apply reseed_wf. destruct (_ =? 32)%Z; [apply feed_wf, W|exact W].
+Qed.
+
+Lemma papply_wf s sys o : pwf s -> pwf (fst (papply perm (s, sys) o)).
+Proof.
+  intros W. destruct o as [|n|d| |g|g|n]; cbn [papply].
+  - pose proof (init_wf sys) as H. destruct (prng_init perm sys) as [[s' b] sys']. exact H.
+  - pose proof (proj1 (fetch_wf s n sys W)) as H. destruct (prng_fetch perm s n sys) as [[s' b] sys']. exact H.
+  - apply feed_wf, W.
+  - pose proof (reseed_wf s sys W) as H. destruct (prng_reseed perm s sys) as [[s' b] sys']. exact H.
+  - destruct (usable g) eqn:U.
+    + destruct g as [g|]; [|discriminate]. pose proof (proj1 (save_g_state perm s g sys U)) as E.
+      destruct (prng_save_seed_g perm s (Some g) sys) as [[[s' r] cs] sys']. cbn [fst] in *. rewrite E.
+      apply fetch_wf, W.
+    + rewrite (save_g_unusable perm s g sys U). exact W.
+  - destruct (usable g) eqn:U.
+    + destruct g as [g|]; [|discriminate]. pose proof (proj1 (load_g_state perm s g sys U)) as E.
+      destruct (prng_load_seed_g perm s (Some g) sys) as [[[s' r] cs] sys']. cbn [fst] in *. rewrite E.
+      apply fetch_wf, load_mid_wf, W.
+    + rewrite (load_g_unusable perm s g sys U). exact W.
+  - exact W.
+Qed.
+Theorem history_wf ops : forall s sys, pwf s -> pwf (fst (fold_left (papply perm) ops (s, sys))).
+Proof.
+  induction ops as [|o ops IH]; intros s sys W; [exact W|].
+  cbn [fold_left]. pose proof (papply_wf s sys o W) as P.
+  destruct (papply perm (s, sys) o) as [s' sys']. apply IH. exact P.
+Qed.
+
+(* what a callback may be handed, for a descriptor g *)
+Definition call_ok (g : nvstorage) (c : cb_call) : Prop :=
+  match c with
+  | CbRead off len => off = 0 /\ len = 32
+  | CbWrite off len data erase => off = 0 /\ len = 32 /\ length data = 32 /\ erase = negb (nv_erase g =? 0)
+  end.
+
+Theorem calls_ok s g sys : pwf s ->
+  Forall (call_ok g) (calls4 (prng_save_seed_g perm s (Some g) sys)) /\
+  Forall (call_ok g) (calls4 (prng_load_seed_g perm s (Some g) sys)).
+Proof.
+  intros W. rewrite calls_save_g, calls_load_g. destruct (st_size (nv_cb g) <? 32); [split; constructor|].
+  split.
+  - constructor; [|constructor]. cbn. repeat split. apply fetch_wf, W.
+  - constructor; [cbn; auto|]. constructor; [|constructor]. cbn. repeat split. apply fetch_wf, load_mid_wf, W.
+Qed.
+
+Theorem init_history_calls_ok ops sys g sys' :
+  let '(s0, _, sys0) := prng_init perm sys in
+  let s := fst (fold_left (papply perm) ops (s0, sys0)) in
+  Forall (call_ok g) (calls4 (prng_save_seed_g perm s (Some g) sys')) /\
+  Forall (call_ok g) (calls4 (prng_load_seed_g perm s (Some g) sys')).
+Proof.
+  pose proof (init_wf sys) as W. destruct (prng_init perm sys) as [[s0 ok] sys0]. cbn [fst] in W. cbv zeta.
+  apply calls_ok, history_wf, W.
+Qed.
+
+End WithPermLen.
